@@ -1,5 +1,6 @@
 """Shared by the engine properties (C01-C08, C14, C19): build a case, run it on the Python engine with probes and on the JS
 engine through node, compare with the reference semantics, report violations with a mechanism signature."""
+import zlib
 import json
 
 from .. import util
@@ -19,7 +20,7 @@ def make_tables(rng, join=False, header_p=0.5, **kw):
     if join:
         B = gq.gen_table(rng, max_rows=kw.get('max_rows', 6), max_cols=kw.get('max_cols', 4), ragged_p=kw.get('ragged_p', 0.25), none_p=0.05)
         # make key collisions likely: rewrite some B cells with values taken from A
-        vals = [c for r in A for c in r if isinstance(c, str)]
+        vals = [c for r in A for c in r if isinstance(c, (str, int))]
         if vals:
             for r in B:
                 for j in range(len(r)):
@@ -242,6 +243,8 @@ def js_request(case):
     req = {'query': qtext, 'input': case['A'], 'join': case['B'], 'input_cols': case['a_names'], 'join_cols': case['b_names']}
     if case.get('init'):
         req['init_code'] = qast.INIT_JS
+    # half of the cases (chosen by the query text, so that a replay agrees) write into a sink that rewrites the arrays it is handed
+    req['mutating_sink'] = zlib.crc32(qtext.encode('utf-8', 'surrogatepass')) % 2 == 1
     return req
 
 
